@@ -133,3 +133,28 @@ func runFluent(pat string) {
 		fmt.Printf("%-90s full=%v exposed=%v\n", funcKey(fn), full, len(exposed) > 0)
 	}
 }
+
+// runCoverageSurvey: functions reading some but not all leaves of an extension-field parameter.
+func runCoverageSurvey() {
+	p, err := Load(K1)
+	if err != nil {
+		fmt.Println(err)
+		os.Exit(2)
+	}
+	re := regexp.MustCompile(`^E\d+$`)
+	n := 0
+	for _, fn := range libFuncs(p) {
+		if fn.Parent() != nil {
+			continue
+		}
+		miss := coordinateCoverage(fn)
+		for pi, m := range miss {
+			if !re.MatchString(namedName(elemOf(fn.Params[pi].Type()))) {
+				continue
+			}
+			n++
+			fmt.Printf("%s param %s misses %v\n", funcKey(fn), fn.Params[pi].Name(), m)
+		}
+	}
+	fmt.Println("partial coordinate readers:", n)
+}
